@@ -7,7 +7,7 @@
    check builds when present.
    Only statements, [exact] and [Print Assumptions] live here. *)
 From Coq Require Import NArith List Bool.
-From GV Require Import Gen.Instr Gen.Exec Gen.Dispatch Model.OpDispatch Spec.Falsy
+From GV Require Import Gen.Instr Gen.Exec Gen.Truth Gen.Dispatch Model.OpDispatch Spec.Falsy
   Proofs.C08.Enum Proofs.C10.Classify Proofs.C10.Truth.
 Import ListNotations.
 
